@@ -2248,7 +2248,11 @@ class Exec:
         if fn in ("old", "at_loop"):
             sv, sh = self.vars, self.heap
             if fn == "old":
-                self.vars, self.heap = dict(self.entry_vars), dict(self.entry_heap)
+                # parameters and arrays take their entry values; locals (loop counters ...) have no entry value and keep
+                # their current one, so that old(a[v]) is the entry content of a at the CURRENT v
+                ov = dict(self.vars)
+                ov.update(self.entry_vars)
+                self.vars, self.heap = ov, dict(self.entry_heap)
             else:
                 key = n.args[1].value if len(n.args) > 1 else getattr(self, "cur_loop", None)
                 ev_, eh_ = self.loop_entry[key]
